@@ -100,7 +100,7 @@ func CheckC10(sc Scenario, rec *Rec) error {
 
 func TestC10(t *testing.T) {
 	runProp(t, "C10", "epochs", 400, 8000, genScenario(ScenarioCfg{MaxEpochs: pick(40, 80), FitnessKinds: []string{"distinct", "distinct", "stagnating"},
-		Parallel: 1, MinPop: 6, MaxPop: pick(40, 100), DupIds: true, Warm: true}), CheckC10)
+		Parallel: 1, MinPop: 6, MaxPop: pick(40, 100), DupIds: true, Warm: true, Retry: true}), CheckC10)
 }
 
 func init() { registerReplay("C10", "epochs", CheckC10) }
